@@ -50,6 +50,12 @@ impl MulShiftedValue {
                 counter += 1;
                 number = number / two;
 
+                // A power of two stays even all the way down to two, so hitting an odd
+                // quotient means that `number` had more than one bit set
+                if number % two != KnownWord::zero() {
+                    return None;
+                }
+
                 if counter > WORD_SIZE_BITS {
                     return None;
                 }
